@@ -33,6 +33,10 @@ PLAN = {
     "C05": {"runs": [eng("fo", "c05", 300, 6000), eng("fo", "c01", 100, 2000)]},
     "C06": {"runs": [eng("fo", "c06", 300, 6000), eng("fo", "table", 0, 0)]},
     "C04": {"runs": [eng("fo", "c04", 250, 5000), eng("fo", "c01", 120, 2000)]},
+    "C16": {"runs": [dict(engine="race", profile="c16", n={"quick": 1, "thorough": 1}, race=True, timeout={"quick": 900, "thorough": 3000})],
+            "trusted_extra": ["the Go memory model, sync, sync/atomic, sync.Map and channel semantics are axioms of the footprint semantics",
+                              "the general theorem 'lock discipline implies data-race freedom' (lockset argument) is assumed, not proved",
+                              "the footprint table is hand-written from the source and tied to the code by the race detector only"]},
     "C13": {"runs": [eng("xfer", "c13", 100, 1500)],
             "trusted_extra": ["encoding/gob is modelled as the identity on {K,V,E,C} records decoded into fresh variables"]},
     "C14": {"runs": [eng("xfer", "c14", 60, 600)],
